@@ -228,6 +228,21 @@ class _Gen:
             self.defs[cid]['members'][an] = vid
             self.cns[cid][an] = ['d', vid]
         if depth == 0 and rng.chance(p['nested']):
+            # optionally bind a module alias inside the class body first; the nested class may then use it for its base
+            if rng.chance(max(p['class_imports'], 0.0) * 2) and self.done:
+                cands_t = [t for t in self.done if t != mod and not any(pf not in self.done for pf in self.exec_prefixes(mod, t))
+                           and any(b[0] == 'd' and self.defs[b[1]]['kind'] == 'class' and self._routes.get((t, n)) == 'local'
+                                   for n, b in self.ns[t].items())]
+                if cands_t:
+                    t = rng.choice(cands_t)
+                    self.alias_n += 1
+                    al = f'cal{self.alias_n}'
+                    self.cns[cid][al] = ['m', t]
+                    self.cns_vias.setdefault(cid, {})[al] = t
+                    st['body'].append({'k': 'import', 'mod': t, 'as': al, 'guard': None})
+                    self.edges.append((mod, t))
+                    for pf in self.exec_prefixes(mod, t):
+                        self.edges.append((mod, pf))
             inner = self.mk_class(rng, mod, scope_ns, outer=cid, depth=1)
             st['body'].append(inner)
         if rng.chance(p['fields']):
@@ -236,6 +251,8 @@ class _Gen:
             st['fields'].append({'tag': rng.choice(['ivar', 'cvar']), 'name': fname, 'id': fid_})
             self.defs[fid_] = {'kind': 'field', 'name': fname, 'module': mod, 'outer': cid}
         rng.shuffle(st['body'])
+        # bindings made by imports in the class body come first (a nested class may use them)
+        st['body'].sort(key=lambda x: 0 if x['k'] in ('import', 'from') else 1)
         return st
 
     def order_bases(self, rng: Rng, chosen: List[Dict[str, Any]]) -> List[Dict[str, Any]]:
@@ -357,6 +374,10 @@ class _Gen:
             for name, b in self.cns[outer].items():
                 if b[0] == 'd' and self.defs[b[1]]['kind'] == 'class':
                     out.append({'expr': name, 'id': b[1], 'route': 'classscope', 'via': None})
+                elif b[0] == 'm' and b[1] in self.done:
+                    for n2, b2 in self.ns[b[1]].items():
+                        if b2[0] == 'd' and self.defs[b2[1]]['kind'] == 'class' and self._routes.get((b[1], n2)) == 'local':
+                            out.append({'expr': f'{name}.{n2}', 'id': b2[1], 'route': 'classscope-import-as-attr', 'via': b[1]})
         return out
 
     def _module_attr_paths(self, expr: str, modname: str, depth: int) -> Iterator[Tuple[str, int, str]]:
@@ -607,6 +628,22 @@ class _Gen:
                 else:
                     body[i] = {'k': form, 'then': [st], 'else': [st2]}
                 self.exotic.add('dup')
+        # duplicate definition of a member inside a class body (the class may later be moved by a re-export)
+        if rng.chance(p['dup'] * 0.6):
+            classes = [st for st in body if st['k'] == 'class' and any(ms['k'] == 'func' for ms in st['body'])]
+            if classes:
+                cst = rng.choice(classes)
+                ms = rng.choice([x for x in cst['body'] if x['k'] == 'func'])
+                st2 = self.mk_func(rng, mod, outer=cst['id'])
+                self.defs[cst['id']]['members'].pop(st2['name'], None)
+                self.cns[cst['id']].pop(st2['name'], None)
+                st2['name'] = ms['name']
+                st2['deco'] = ms.get('deco')
+                self.defs[st2['id']]['name'] = ms['name']
+                self.defs[st2['id']]['dup_of'] = ms['id']
+                cst['body'].insert(cst['body'].index(ms) + 1, st2)
+                self.exotic.add('dup')
+                self.exotic.add('dup-in-class')
         # a local definition colliding with a re-exported name
         if m['all'] and rng.chance(p['onto_existing']):
             cands = [n for n in m['all'] if self._routes.get((mod, n)) in ('from', 'star')
@@ -787,6 +824,7 @@ class _Gen:
         self.done: List[str] = []
         self.exotic: set = set()
         self.cns_origin: Dict[int, Dict[str, List[str]]] = {}
+        self.cns_vias: Dict[int, Dict[str, str]] = {}
         self.docassigned: set = set()
         self.reexport_direct: Dict[int, bool] = {}
         self.method_aliases: List[Tuple[str, str, int]] = []
